@@ -127,17 +127,27 @@ fn run_faults(ctx: &RunCtx, tier: Tier) -> RunOut {
     let n_ops = h0.knobs().st_ops;
     let base_proj = trace::render_events_and_requests(&base);
     // fault set
-    let class = choose("fault_class", 4);
+    let class = choose("fault_class", tier.pick(4, 5));
     let fault = match class {
         0 => Fault { idx: vec![choose("op", n_ops)], ..Default::default() },
         1 => {
             let a = choose("op", n_ops);
             let b = choose("op2", n_ops);
-            if b <= a || (tier == Tier::Quick && (a + b) % 3 != 0) {
-                // unordered pairs only; quick: a third of them
+            if b <= a {
+                // unordered pairs only
                 return RunOut::new("skipped-pair", false, hash64(&(s, a, b)));
             }
             Fault { idx: vec![a, b], ..Default::default() }
+        }
+        4 => {
+            // thorough only: every unordered triple of storage operations
+            let a = choose("op", n_ops);
+            let b = choose("op2", n_ops);
+            let c = choose("op3", n_ops);
+            if !(a < b && b < c) {
+                return RunOut::new("skipped-triple", false, hash64(&(s, a, b, c)));
+            }
+            Fault { idx: vec![a, b, c], ..Default::default() }
         }
         2 => match choose("all_of", 4) {
             0 => Fault { all_kind: Some(0), ..Default::default() },
@@ -441,7 +451,7 @@ fn parts(tier: Tier) -> Vec<PartDef> {
         PartDef::new(
             "storage-faults",
             Cfg::new("C14/storage-faults"),
-            json!({"scripts": SCRIPTS, "fault_sets": "every single write op, pairs (quick: a third), all sets, all removes, all commits, everything, all writes on each of 9 keys", "oracle": "no panic, every check delivers a result, events and requests equal the healthy run"}),
+            json!({"scripts": SCRIPTS, "fault_sets": "every single write op, pairs, triples (thorough only), all sets, all removes, all commits, everything, all writes on each of 9 keys", "oracle": "no panic, every check delivers a result, events and requests equal the healthy run"}),
             move |ctx| run_faults(ctx, tier),
         ),
         PartDef::new(
@@ -483,8 +493,8 @@ fn parts(tier: Tier) -> Vec<PartDef> {
     ));
     v.push(PartDef::new(
         "clock-jumps-with-logging",
-        Cfg::new("C14/clock-jumps-with-logging").dev(1).free(&["script"]),
-        json!({"menu": 7, "max_jumps_per_run": 1, "scripts": SCRIPTS, "logging": "every event formatted"}),
+        Cfg::new("C14/clock-jumps-with-logging").dev(tier.pick(1, 2)).free(&["script"]),
+        json!({"menu": 7, "max_jumps_per_run": tier.pick(1, 2), "scripts": SCRIPTS, "logging": "every event formatted"}),
         |ctx| crate::logsink::with_logging(|| run_clock(ctx)),
     ));
     if tier == Tier::Thorough {
